@@ -76,7 +76,7 @@ def _classify_conv(kind_of):
         keys = {'rp66': ['rp66v1_tolas_stop_from_slice_last'],
                 'lis': ['lis_bit_tolas_slice_drops_last_frames', 'lis_tolas_well_section_ignores_slice', 'lis_tolas_indirect_x_units', 'lis_tolas_implied_x_after_record_boundary'],
                 'bit': ['lis_bit_tolas_slice_drops_last_frames', 'bit_tolas_step_mnemonic']}[kind_of]
-        fn = {'rp66': lambda: H._rp66(m['order'], m['kind'], m['a'], m['b'], m['c'], m['m1'], m['m2']),
+        fn = {'rp66': lambda: H._rp66(m['order'], m['kind'], m['a'], m['b'], m['c'], m['m1'], m['m2'], m.get('again', False)),
               'lis': lambda: H._lis(m['f1'], m['indirect'], m['tif'], m['kind'], m['a'], m['b'], m['c']),
               'bit': lambda: H._bit(m['nch'], m['f0'], m['f1'], m['inc'], m['kind'], m['a'], m['b'], m['c'], m['m1'])}[kind_of]
         old = os.environ.get('VERIF_EXCLUDE', '')
@@ -105,7 +105,7 @@ def obligations(tier):
     q = tier == 'quick'
     return [
         ob_last(),
-        Ob('rp66v1_to_las', 'ch', '5 IFLR interleavings (1..2 frame types, 1..6 records); selector none / Slice(-2..2, {-1,2,3,5}, 1..3) / Sample(1..3); subsets of the two value channels',
+        Ob('rp66v1_to_las', 'ch', '5 IFLR interleavings (1..2 frame types, 1..6 records); selector none / Slice(-2..2, {-1,2,3,5}, 1..3) / Sample(1..3); subsets of the two value channels; one conversion, or the whole index converted first and then the selection',
            ['RP66V1.ToLAS.single_rp66v1_file_to_las', 'write_logical_index_to_las', '_write_array_section_to_las', '_add_start_stop_step_to_dictionary', 'write_well_information_to_las',
             'LAS.core.WriteLAS.write_curve_and_array_section_to_las', 'util.bin_file_type.binary_file_type_from_path', 'common.Slice.Slice.first/last/count'],
            harness='C11_tolas', func='rp66v1_to_las', timeout=280 if q else 1200, parts=15, unblock=True, classify=_classify_conv('rp66')),
